@@ -494,6 +494,19 @@ func tmpFile(name, content string) string {
 		dfilesDir = d
 	}
 	p := filepath.Join(dfilesDir, name)
+	// for every other content (by its length) the path is a symbolic link to the real file (hosts and lease files of
+	// router firmwares often are: /etc/hosts -> /tmp/etc/hosts)
+	_ = os.Remove(p)
+	_ = os.Remove(p + ".real")
+	if len(content)%2 == 1 {
+		if err := os.WriteFile(p+".real", []byte(content), 0644); err != nil {
+			panic(err)
+		}
+		if err := os.Symlink(p+".real", p); err != nil {
+			panic(err)
+		}
+		return p
+	}
 	if err := os.WriteFile(p, []byte(content), 0644); err != nil {
 		panic(err)
 	}
